@@ -490,6 +490,8 @@ class Sharded:
         self.stopped_early = False
         self.problems = []  # harness failures (exit 2 etc.)
         self.cases = 0
+        self.keep_prefix = None
+        self.kept = []
         self.single_fn = single_fn or (lambda c: argv_fn(c, c + 1))
 
     def _spawn(self, a, b, idx):
@@ -515,6 +517,8 @@ class Sharded:
             elif line.startswith('@viol '):
                 k, _, t = line[6:].partition(' :: ')
                 self.viols.append((k.strip(), t, last))
+            elif self.keep_prefix and line.startswith(self.keep_prefix):
+                self.kept.append(line)
             elif line.startswith('@stat '):
                 try:
                     self.stats.append(json.loads(line[6:]))
